@@ -12,8 +12,11 @@ EXPLANATION = ('Theorems about ownership transfer in the Lean dependency-graph m
                'non-transferred key, every blocked thread transitively waits for an unblocked one. Liveness (livelock-freedom, bounded '
                'retries) is NOT proved: it rests on exploration. Values of cyclic programs are those of C12/C13. Tied to salsa by '
                'shuttle-scheduled and real-thread runs of 2-3 threads entering generated fixpoint/fallback cycles (nested, conditional) at '
-               'different members: results vs the sequential fixpoint oracle, deadlock/step-bound detection, and trace replay through the '
-               'Lean driver (digests equal, W1/W2/W4/W5 after every operation).')
+               'different members and, in half of the cases, of 5-6 threads entering one larger fixpoint component (5-8 members with '
+               'duplicate callees; PCT with 6-20 change points and several schedules / repetitions per case: histories that need a '
+               'fourth thread, such as the repaired same-owner re-transfer, are out of reach of the 2-3 thread cases): results vs the '
+               'sequential fixpoint oracle, deadlock/step-bound detection, and trace replay through the Lean driver (digests equal, '
+               'W1-W5 after every operation).')
 ASSUMPTIONS = ['termination under every schedule is explored (shuttle deadlock / step-bound detector), not proved: PARTIAL',
                'fallback (cycle_result) components are excluded from multi-revision cases because of the known finding C13/kf1']
 
